@@ -312,6 +312,17 @@ fn run_batch(args: &[String]) -> i32 {
         }
         if let Outcome::Fail(c) = out {
             // this process is not reused for further executions after a failure
+            let mut c = c;
+            if c.owned_by(&prop) && prop == "C18" {
+                // control: the same programs one after the other. A failure that needs no
+                // interleaving is not a concurrency defect (it belongs to a sequential property).
+                let mut ctl = case.clone();
+                ctl.sequential = true;
+                if child_search(&replay_dir, &ctl, Some(&sched), &prop, &c.name, 1).is_some() {
+                    c.owners.retain(|o| o != "C18");
+                    res.counters.inc("control.sequential_run_fails_too");
+                }
+            }
             if c.owned_by(&prop) {
                 let sig0 = signature(&case, &c);
                 if known.contains(&sig0) {
